@@ -3,7 +3,7 @@
 
   seeded.py add <prop> <name> <patch.diff> <demo.py> [--note TEXT]   store a confirmed seeded change under seeded/<prop>/<name>/
   seeded.py confirm <prop> <name>      apply the patch to a scratch worktree under /tmp, run the test suite and the demo there
-  seeded.py run [<prop> [<name>]] [--tier quick]   apply each patch to /repo, run ./check <prop>, undo, record the outcome
+  seeded.py run [<prop> [<name>]] [--tier quick] [--seeds 0,1,2]   apply each patch to /repo, run ./check <prop> per seed, undo, record
   seeded.py table                       print seeded/RESULTS.md from the recorded outcomes
 
 /repo is always restored with `git -C /repo checkout -- .` (also on errors).  Nothing here is registered in MANIFEST.json."""
@@ -66,7 +66,7 @@ def confirm(prop, name):
         sh('git -C %s worktree remove --force %s' % (REPO, wt))
 
 
-def run(prop=None, name=None, tier='quick', props_to_check=None):
+def run(prop=None, name=None, tier='quick', props_to_check=None, seeds=(0,)):
     rc, st = sh('git -C %s status --porcelain' % REPO)
     if st.strip():
         print('refusing: /repo has local changes:\n' + st); sys.exit(2)
@@ -77,17 +77,22 @@ def run(prop=None, name=None, tier='quick', props_to_check=None):
             print(p, n, 'patch does not apply', out); continue
         try:
             res = {}
-            for cp in (props_to_check or [p]):
-                rc, out = sh('./check %s --tier %s' % (cp, tier), cwd=ROOT, timeout=7200)
-                lines = [l for l in out.splitlines() if l.startswith('VIOLATION') or l.startswith('    ')]
-                res[cp] = {'exit': rc, 'lines': lines[:8], 'tail': out.splitlines()[-1] if out.splitlines() else ''}
+            per_seed = {}
+            for sd in seeds:
+                for cp in (props_to_check or [p]):
+                    rc, out = sh('./check %s --tier %s' % (cp, tier), cwd=ROOT, timeout=7200, env=dict(os.environ, VERIF_SEED=str(sd)))
+                    lines = [l for l in out.splitlines() if l.startswith('VIOLATION') or l.startswith('    ')]
+                    per_seed[str(sd)] = rc != 0
+                    if cp not in res or (rc != 0 and res[cp]['exit'] == 0):
+                        res[cp] = {'exit': rc, 'lines': lines[:8], 'tail': out.splitlines()[-1] if out.splitlines() else ''}
         finally:
             sh('git -C %s checkout -- .' % REPO)
         meta = json.load(open(os.path.join(d, 'meta.json')))
         meta.setdefault('outcomes', {})[tier] = res
-        meta['detected_' + tier] = any(r['exit'] != 0 for r in res.values())
+        meta['detected_' + tier] = all(per_seed.values())
+        meta['detected_by_seed_' + tier] = per_seed
         json.dump(meta, open(os.path.join(d, 'meta.json'), 'w'), indent=1)
-        print('%s %-28s %s  (%.0fs)  %s' % (p, n, 'DETECTED' if meta['detected_' + tier] else 'missed', time.time() - t0,
+        print('%s %-6s %s %s  (%.0fs)  %s' % (p, n, 'DETECTED' if meta['detected_' + tier] else 'MISSED on some seed', per_seed, time.time() - t0,
                                            '; '.join(l.strip()[:110] for r in res.values() for l in r['lines'][1:2])))
 
 
@@ -118,6 +123,8 @@ if __name__ == '__main__':
     elif a[0] == 'run':
         tier = a[a.index('--tier') + 1] if '--tier' in a else 'quick'
         pos = [x for i, x in enumerate(a[1:]) if not x.startswith('--') and (i == 0 or a[i] != '--tier')]
-        run(pos[0] if pos else None, pos[1] if len(pos) > 1 else None, tier)
+        seeds = tuple(int(x) for x in a[a.index('--seeds') + 1].split(',')) if '--seeds' in a else (0,)
+        pos = [x for x in pos if x != (a[a.index('--seeds') + 1] if '--seeds' in a else None)]
+        run(pos[0] if pos else None, pos[1] if len(pos) > 1 else None, tier, seeds=seeds)
     elif a[0] == 'table':
         table()
